@@ -29,7 +29,10 @@ type tcase struct {
 
 func (c tcase) line() string { return c.Op + " " + c.A + " " + c.B }
 
-func parseTs(s string) *timestamppb.Timestamp {
+func parseTs(s string) *timestamppb.Timestamp { return parseTsIn(nil, s) }
+
+// parseTsIn builds the timestamp in the given watch arena (nil: on the heap).
+func parseTsIn(a *watchArena, s string) *timestamppb.Timestamp {
 	if s == "-" {
 		return nil
 	}
@@ -39,15 +42,23 @@ func parseTs(s string) *timestamppb.Timestamp {
 	if err1 != nil || err2 != nil {
 		panic("bad ts " + s)
 	}
-	return &timestamppb.Timestamp{Seconds: sec, Nanos: int32(n)}
+	ts := watchNew[timestamppb.Timestamp](a, "timestamp")
+	ts.Seconds, ts.Nanos = sec, int32(n)
+	ts.ProtoReflect()
+	return ts
 }
 
-func parsePeriod(s string) *sctimepb.Period {
+func parsePeriod(s string) *sctimepb.Period { return parsePeriodIn(nil, s) }
+
+func parsePeriodIn(a *watchArena, s string) *sctimepb.Period {
 	if s == "nil" {
 		return nil
 	}
 	p := strings.Split(s, "/")
-	return &sctimepb.Period{StartTime: parseTs(p[0]), EndTime: parseTs(p[1])}
+	out := watchNew[sctimepb.Period](a, "period")
+	out.StartTime, out.EndTime = parseTsIn(a, p[0]), parseTsIn(a, p[1])
+	out.ProtoReflect()
+	return out
 }
 
 func (c tcase) runCode() string {
@@ -137,16 +148,35 @@ func le(a, b *big.Int) bool { return a == nil || b == nil || a.Cmp(b) <= 0 }
 // argsModified runs the operation once more on fresh arguments and reports how the call changed them ("" if
 // it did not): the predicates, the comparison and the constructors only read their timestamps / periods.
 func (c tcase) argsModified() (mutated string) {
+	if mutated = c.argsModifiedIn(nil); mutated != "" {
+		return mutated
+	}
+	// once more with the arguments in read-only pages (watch.go): any store into them during the call
+	w := timeArena
+	if w == nil || w.broken || !timeWatch.take(c.Op) {
+		return ""
+	}
+	w.reset()
+	c.argsModifiedIn(w)
+	if w.fault != "" {
+		return "a store into " + w.fault + " during the call (the argument's pages were read-only)"
+	}
+	return ""
+}
+
+var timeArena = newWatchArena()
+
+func (c tcase) argsModifiedIn(w *watchArena) (mutated string) {
 	lib.Catch(func() {
 		switch c.Op {
 		case "cmp":
-			a, b := parseTs(c.A), parseTs(c.B)
-			sctime.CompareAscending(a, b)
+			a, b := parseTsIn(w, c.A), parseTsIn(w, c.B)
+			watched(w, func() { sctime.CompareAscending(a, b) })
 			if showTs(a) != c.A || showTs(b) != c.B {
 				mutated = showTs(a) + " " + showTs(b)
 			}
 		case "isect", "conn":
-			p, q := parsePeriod(c.A), parsePeriod(c.B)
+			p, q := parsePeriodIn(w, c.A), parsePeriodIn(w, c.B)
 			var ps, pe, qs, qe *timestamppb.Timestamp
 			if p != nil {
 				ps, pe = p.StartTime, p.EndTime
@@ -154,25 +184,29 @@ func (c tcase) argsModified() (mutated string) {
 			if q != nil {
 				qs, qe = q.StartTime, q.EndTime
 			}
-			if c.Op == "isect" {
-				sctime.PeriodsIntersect(p, q)
-			} else {
-				sctime.PeriodsConnected(p, q)
-			}
+			watched(w, func() {
+				if c.Op == "isect" {
+					sctime.PeriodsIntersect(p, q)
+				} else {
+					sctime.PeriodsConnected(p, q)
+				}
+			})
 			if showPeriod(p) != c.A || showPeriod(q) != c.B ||
 				(p != nil && (p.StartTime != ps || p.EndTime != pe)) || (q != nil && (q.StartTime != qs || q.EndTime != qe)) {
 				mutated = showPeriod(p) + " " + showPeriod(q)
 			}
 		case "pbefore", "pafter", "pbetween":
-			a, b := parseTs(c.A), parseTs(c.B)
-			switch c.Op {
-			case "pbefore":
-				sctime.PeriodBefore(a)
-			case "pafter":
-				sctime.PeriodOnOrAfter(a)
-			default:
-				sctime.PeriodBetween(a, b)
-			}
+			a, b := parseTsIn(w, c.A), parseTsIn(w, c.B)
+			watched(w, func() {
+				switch c.Op {
+				case "pbefore":
+					sctime.PeriodBefore(a)
+				case "pafter":
+					sctime.PeriodOnOrAfter(a)
+				default:
+					sctime.PeriodBetween(a, b)
+				}
+			})
 			if showTs(a) != c.A || showTs(b) != c.B {
 				mutated = showTs(a) + " " + showTs(b)
 			}
